@@ -38,6 +38,24 @@ def decl_specs(tier):
             add([b, a], 'a')
             if tier == 'thorough':
                 add([a, b], 'b')
+    # a selector with TWO packet alternatives inside a repeated packet: the alternatives interleave (A, B, A)
+    from mc import ir
+    import itertools
+    A1 = ir.PKT('A1', [('v', ir.I(1))])
+    A2 = ir.PKT('A2', [('w', ir.I(1)), ('e', ir.D(ir.C(0)))])
+    for form in ('chooses', 'lambda'):
+        K = ir.PKT('K', [('t', ir.I(1)), ('u', ir.RS(ir.F('t'), [(1, A1), (2, A2), (3, ir.I(1))], 0, form=form))])
+        W = ir.PKT('W', [('c', ir.I(1)), ('items', ir.S(ir.R(K), ir.F('c')))])
+        extra = []
+        for n in range(0, 4):
+            for ts in itertools.product((1, 2, 3), repeat=n):
+                body = b''.join(bytes([t, 5 + i]) for i, t in enumerate(ts))
+                extra.append(bytes([n]) + body)
+                if n == 3:
+                    extra.append(bytes([n]) + body[:-1])
+        specs.append({'P': W, 'tag': 'two-packet selector (%s) in a repeated packet' % form, 'extra_inputs': extra})
+        W2 = ir.PKT('W', [('t', ir.I(1)), ('l', ir.S(ir.RS(ir.F('t'), [(1, A1), (2, A2)], 0, form=form), ir.C(3), default=[])), ('z', ir.I(1))])
+        specs.append({'P': W2, 'tag': 'two-packet selector (%s) repeated' % form, 'extra_inputs': [bytes([t, 7, 8, 9, 1]) for t in (1, 2)] + [bytes([1, 7, 8])]})
     # nesting packet-in-sequence-in-packet twice
     for c in ('sr', 'sur', 'or', 'rs', 'rbag', 'srs'):
         add([c], 'c')
@@ -52,6 +70,9 @@ def check_decl(dc, st, tier, only=None):
     budget = 800 if tier == 'quick' else 4000
     for raw, r in ea.inputs_for(dc, budget):
         r, u = ea.conformance(dc, st, raw, r)
+        st.add('states', ea.state_key(dc, r, u, raw))
+    for raw in dc.spec.get('extra_inputs', ()):
+        r, u = ea.conformance(dc, st, raw, ea.ref_parse(dc.P, raw))
         st.add('states', ea.state_key(dc, r, u, raw))
 
 
